@@ -66,10 +66,13 @@ std::vector<int> minusTids(const std::vector<int>& a, const std::vector<int>& b)
 // while an earlier wake already made it runnable), and the futex counters did not move for three
 // samples in a row.
 bool allAsleep(const std::vector<int>& workerTids);
-bool waitAllParked(dispenso::ThreadPool& pool, const std::vector<int>& workerTids, double guardSeconds = 30.0);
-// Waits for a flag set by a task. Gives up (false) when the pool is demonstrably parked again with the
-// flag unset (three samples 100 ms apart), or after the guard.
-bool waitFlagOrStranded(std::atomic<int>& flag, dispenso::ThreadPool& pool, const std::vector<int>& workerTids, double guardSeconds = 30.0);
+// sleepFlags=false for poll mode, whose workers never call enterSleep (the sleep counter reads 0 while
+// they are parked in the futex)
+bool waitAllParked(dispenso::ThreadPool& pool, const std::vector<int>& workerTids, double guardSeconds = 30.0, bool sleepFlags = true);
+// Waits for a flag set by a task. 1: set. 0: the pool is demonstrably parked with the flag unset (every
+// worker asleep inside a timed futex wait, wait exits stable, three samples 100 ms apart). -1: guard.
+int waitFlagOrStranded(std::atomic<int>& flag, dispenso::ThreadPool& pool, const std::vector<int>& workerTids, double guardSeconds = 30.0,
+                       bool sleepFlags = true);
 J poolJson(dispenso::ThreadPool& pool);
 
 constexpr uint32_t kHourUs = 3600u * 1000000u; // fits the pool's 32-bit microsecond field
